@@ -229,7 +229,7 @@ func runRecords(out string, seed int64, n int) {
 	// stream: FetchResponseBlock, all versions, encode -> decode -> re-encode (-> decode)
 	nf := 48
 	if n > 200 {
-		nf = n
+		nf = 300
 	}
 	for i := 0; i < nf; i++ {
 		v := int16(i % 12)
